@@ -142,6 +142,33 @@ def check_case(case):
                 pass
             except Exception as e:
                 out.append((f"corrupt-header-wrong-error/{name}", f"{bad!r} -> {e!r}"))
+    elif kind == "v1-variant":
+        # a valid v1 header text with non-default ENCODING / CHARSET (make_header never writes these): parses to equal
+        # fields, and every corruption of it is refused
+        want = dict(expected_vals(case["version"], case.get("security"), case.get("old"), case.get("new")), ENCODING=case["encoding"], CHARSET=case["charset"])
+        text = v1_text(want)
+        try:
+            h2, body = hdr.parse_header(io.BytesIO((text + BODY).encode("ascii")))
+        except Exception as e:
+            return [("valid-header-text-rejected", f"{text!r}: {e!r}")]
+        if header_fields(h2, V1_FIELDS) != want:
+            out.append(("parsed-fields-differ", f"{text!r} -> {header_fields(h2, V1_FIELDS)}, expected {want}"))
+        if body != BODY:
+            out.append(("body-differs", f"{text!r} -> body {body!r}"))
+        try:
+            h3 = hdr.OFXHeaderV1(version=case["version"], security=case.get("security"), encoding=case["encoding"], charset=case["charset"], oldfileuid=case.get("old"), newfileuid=case.get("new"))
+            if header_fields(h3, V1_FIELDS) != want or own_read_v1(str(h3)) != want:
+                out.append(("constructed-fields-differ", f"{want} -> {header_fields(h3, V1_FIELDS)} / {str(h3)!r}"))
+        except Exception as e:
+            out.append(("valid-constructor-args-refused", f"{want}: {e!r}"))
+        for name, bad in corruptions(1, want):
+            try:
+                r = hdr.parse_header(io.BytesIO((bad + BODY).encode("ascii")))
+                out.append((f"corrupt-header-accepted/{name}", f"{bad!r} -> {header_fields(r[0], V1_FIELDS)}"))
+            except E:
+                pass
+            except Exception as e:
+                out.append((f"corrupt-header-wrong-error/{name}", f"{bad!r} -> {e!r}"))
     elif kind == "ctor":
         cls = hdr.OFXHeaderV1 if case["major"] == 1 else hdr.OFXHeaderV2
         try:
@@ -184,6 +211,20 @@ def _table_worker(job):
                 s.label("corruptions-tried", len(corruptions(v // 100, expected_vals(v, sec, old, new))))
                 for k, d in check_case(c):
                     s.fail(k, c, d)
+    return s
+
+
+def _variant_worker(job):
+    H.setup_path()
+    s = H.Stats()
+    for v in job:
+        for enc in ("USASCII", "UNICODE", "UTF-8"):
+            for cs in ("ISO-8859-1", "1252", "NONE"):
+                for sec, old, new in ((None, None, None), ("TYPE1", "a-b_c", "Z" * 36)):
+                    c = {"kind": "v1-variant", "version": v, "encoding": enc, "charset": cs, "security": sec, "old": old, "new": new}
+                    s.case(c, nontrivial=True, labels=["v1-encoding-charset-variants"])
+                    for k, d in check_case(c):
+                        s.fail(k, c, d)
     return s
 
 
@@ -252,6 +293,8 @@ def _ctor_is_bad(c):
 def run(ctx):
     versions = sorted(set(range(100, 200)) | set(V2_SUPPORTED))
     ctx.pmap(_table_worker, [versions[i::16] for i in range(16)])
+    v1s = [102, 103, 151, 160, 100, 199]
+    ctx.pmap(_variant_worker, [[v] for v in v1s])
     allv = list(range(0, 1000))
     ctx.pmap(_make_worker, [allv[i::8] for i in range(8)])
     n = ctx.scale(1200, 20000)
